@@ -251,4 +251,48 @@ theorem encodeMap_sorted {V : Type} (C : Codec V) (pay : V → List Bool × List
       · simp at hfb ⊢; omega
       · simp
 
+/-! ### further facts used by the property theorems -/
+
+theorem toCell_ty {V : Type} (pay : V → List Bool × List Cell) (t : HTree V) (m : Nat) : (t.toCell pay m).ty = 0 := by
+  cases t <;> rfl
+
+/-- the meaning of a valid tree is listed in strictly ascending order of key bits -/
+theorem meaning_sorted {V : Type} (t : HTree V) : ∀ (m : Nat), t.Valid m → SortedKV t.meaning := by
+  induction t with
+  | leaf l v => intro m _; simp [HTree.meaning, SortedKV]
+  | fork l lo hi ihlo ihhi =>
+    intro m hv
+    simp only [HTree.Valid] at hv
+    obtain ⟨_, hvlo, hvhi⟩ := hv
+    have h1 := ihlo _ hvlo
+    have h2 := ihhi _ hvhi
+    unfold SortedKV at *
+    simp only [HTree.meaning]
+    rw [List.pairwise_append]
+    refine ⟨?_, ?_, ?_⟩
+    · rw [List.pairwise_map]; simpa using h1
+    · rw [List.pairwise_map]; simpa using h2
+    · intro a ha b hb
+      obtain ⟨x, _, rfl⟩ := List.mem_map.mp ha
+      obtain ⟨y, _, rfl⟩ := List.mem_map.mp hb
+      simp
+
+theorem foldl_max_len {V : Type} (n : Nat) : ∀ (kvs : List (Key × V)) (init : Nat), kvs ≠ [] →
+    (∀ kv ∈ kvs, kv.1.length = n) → kvs.foldl (fun m kv => max m kv.1.length) init = max init n
+  | [], _, h, _ => by simp at h
+  | [x], init, _, hw => by simp [hw x (by simp)]
+  | x :: y :: rest, init, _, hw => by
+    simp only [List.foldl_cons]
+    have := foldl_max_len n (y :: rest) (max init x.1.length) (by simp)
+      (fun kv h => hw kv (List.mem_cons_of_mem _ h))
+    simp only [List.foldl_cons] at this
+    rw [this, hw x (by simp)]
+    omega
+
+theorem maxKeyLen_eq {V : Type} (n : Nat) (kvs : List (Key × V)) (hne : kvs ≠ []) (hw : ∀ kv ∈ kvs, kv.1.length = n) :
+    maxKeyLen kvs = n := by
+  unfold maxKeyLen
+  rw [foldl_max_len n kvs 0 hne hw]
+  omega
+
 end Tongo.Hashmap
